@@ -18,6 +18,13 @@ The cold family (pvm/c07_cold.py) runs every schedule in a fork of a pristine
 template interpreter, so that "first use" of the lazily filled registries is
 real; its template processes run beside the in-process schedules of a shard.
 
+Single preemptions are strided over the first thread's yield points and
+*directed*: the serial run of a unit samples the probe at every yield point;
+the yield point right after each statement that changed an observed shared
+field (config, shared schema fields, process-wide state, numpy's global
+generator) is preempted too - the thread is parked in the window its own
+write opened.
+
 The mechanism classifier reads only the witness: which shared fields the
 scheduler's probe saw changed under a parked thread (``foreign``), which
 config fields / fingerprint paths differ after join, and the scenario's flags.
@@ -47,14 +54,21 @@ K_D17 = "pandas-shared-column-coerce-dtype-override-unsynchronised"
 K_NAME = "pandas-shared-column-name-override-unsynchronised"
 K_D2 = "regex-column-name-not-restored-after-failed-validate"
 K_MODEL = "model-to-schema-first-use-class-dict-mutated-while-iterated"
+# a sampling validation (sample=, random_state=) looked at other rows than
+# random_state selects after it saw numpy's process-wide generator change
+K_RNG = "pandas-subsample-rows-depend-on-process-wide-numpy-generator"
+# a call on a shared schema gave exactly the outcome of a twin schema without
+# its dataframe-level (series-level) parsers
+K_ALT = "shared-pandas-schema-concurrent-validate:"
 
 # sizes: (variants, single-preemption points per direction (None = all),
 #         double-preemption grid side, random schedules per (variant, n, p))
 SIZES = {
-    "quick": dict(variants=2, single=70, double=6, random=16),
+    "quick": dict(variants=2, single=70, double=6, random=16, directed=24),
     # single: every yield point of the first thread up to 2500 per direction
     # (only the model compilation of model_first_use is longer: strided)
-    "thorough": dict(variants=3, single=2500, double=14, random=96),
+    "thorough": dict(variants=3, single=2500, double=14, random=96,
+                     directed=400),
 }
 PROBS = (0.005, 0.02, 0.10)
 # scenarios whose calls fill process-wide caches / touch process-wide state:
@@ -92,10 +106,17 @@ def new_run():
         "case = one executed schedule of one scenario (2-3 threads running real "
         "validate calls under the sys.monitoring token scheduler); schedules: "
         "systematic single preemption (thread X stopped at its i-th pandera "
-        "line, the others run to completion, X resumes; both directions), "
+        "line, the others run to completion, X resumes; both directions; "
+        "strided + directed: right after every statement of X that wrote "
+        "observed shared state - config, fields of shared schemas, process-"
+        "wide state, numpy's global generator), "
         "a grid of double preemptions, seeded random switching with p in "
-        "{0.5%,2%,10%} for 2 and 3 threads. 15 warm scenario families run in "
-        "one process (schemas rebuilt per schedule); 6 cold families run every "
+        "{0.5%,2%,10%} for 2 and 3 threads. 17 warm scenario families run in "
+        "one process (schemas rebuilt per schedule; among them one shared "
+        "pandas schema / model / SeriesSchema with dataframe-level, column-"
+        "level and element-wise parsers, and head=/tail=/sample=/random_state= "
+        "validations whose outcome tells which rows were drawn); "
+        "6 cold families run every "
         "schedule in a fork of a pristine template interpreter (pandas/polars/"
         "pandera imported, nothing constructed or validated): each thread "
         "builds its schema inside its call (never-used DataFrameModel, schema "
@@ -123,7 +144,14 @@ def new_run():
          "import lock would dead-lock the token scheduler): races inside lazy "
          "imports are not explored; a fork of the import-only template stands "
          "for a fresh interpreter",
-         "2-3 threads, frames <= 5 rows, 15 warm + 6 cold scenario families"])
+         "2-3 threads, frames <= 5 rows (12-24 rows in the subsample family), "
+         "17 warm + 6 cold scenario families",
+         "numpy's process-wide generator is observed (witness, directed "
+         "preemption) but its state after join is not judged: an un-seeded "
+         "sample= advances it legitimately and the documentation does not "
+         "say where a seeded call draws from",
+         "parsers are pandas-only (the polars backend has no user parsers); "
+         "user parser functions are pure and are not preempted inside"])
 
 
 # ------------------------------------------------------------------ helpers
@@ -238,8 +266,13 @@ def classify(kind, w):
                 and site.startswith("RuntimeError@api/dataframe/model.py:_collect_")
                 and "dictionary changed size" in w["got"]):
             return K_MODEL
+        if w.get("got_equals_reference") and flags.get("parsers"):
+            return K_ALT + w["got_equals_reference"][0]
         if not fk:
             return None
+        if (fk == {"proc"} and flags.get("subsample")
+                and w["foreign_proc_fields"] == ["numpy.random.state"]):
+            return K_RNG
         if fk == {"proc"}:
             # the thread saw process-wide state outside pandera (a pandas
             # option, numpy error state, warnings filters) changed by another
@@ -322,16 +355,35 @@ class Baseline:
                 cfg_restore()
         self.labels = b.labels
         self.flags = b.flags
+        # reference outcomes of the same calls on a twin schema (classifier)
+        self.alt = {}
+        b = SC.build(name, variant, n, seed)
+        try:
+            for k, thunks in (b.alt or {}).items():
+                self.alt[k] = [SC.sig(t()) for t in thunks]
+        finally:
+            if b.cleanup:
+                b.cleanup()
+            cfg_restore()
 
 
 # ------------------------------------------------------------------ one schedule
-def judge(run, sched, name, variant, n, seed, policy, base, tag):
+def judge(run, sched, name, variant, n, seed, policy, base, tag,
+          probe_every=False):
     b = SC.build(name, variant, n, seed)
     try:
         before_fp = fps(b)
         before_cfg = cfg_state()
         before_proc = SC.proc_state()
-        r = sched.run(b.thunks, policy, probe=b.probe, timeout=60.0)
+        before_rng = SC.rng_state()
+        r = sched.run(b.thunks, policy, probe=b.probe, timeout=60.0,
+                      probe_every=probe_every)
+        # numpy's process-wide generator: observed, not judged (an un-seeded
+        # sample= legitimately advances it; the documentation of random_state
+        # does not say where a seeded call draws from)
+        if SC.rng_state() != before_rng:
+            run.count("undecided:numpy global generator state differs after "
+                      "join (not judged)")
         after_cfg = cfg_state()
         after_proc = SC.proc_state()
         after_fp = fps(b)
@@ -388,7 +440,10 @@ def _judge(run, b, r, name, variant, n, seed, policy, base, tag, before_fp,
                         "got_exc_site": (H.exc_sig(r.outcomes[i].exc)
                                          if r.outcomes[i].kind == "exc" else None),
                         "foreign_changes_seen_by_thread": r.foreign[i][:12],
-                        "foreign_kinds_of_thread": fk}
+                        "foreign_kinds_of_thread": fk,
+                        "got_equals_reference": sorted(
+                            k_ for k_, sg in base.alt.items()
+                            if sg[i] == got)}
             run.count(f"mismatch:{name}:{SC.brief(base.solo[i])[:40]}->"
                       f"{SC.brief(got)[:40]}")
             run.violation("outcome-differs-from-solo", w,
@@ -605,7 +660,8 @@ def run_unit(run, ctx, sched, unit, bases):
         first = unit[3]
         # yield points of each thread when run back to back
         r0 = judge(run, sched, name, v, 2, ctx.seed,
-                   Serial([first, 1 - first]), base, "serial")
+                   Serial([first, 1 - first]), base, "serial",
+                   probe_every=(kind == "single"))
         if r0.status != "ok":
             return r0.status != "hung"
         na, nb = r0.yields[first], r0.yields[1 - first]
@@ -613,12 +669,31 @@ def run_unit(run, ctx, sched, unit, bases):
         if kind == "single":
             c, nchunk = unit[4], unit[5]
             pts = strided(na, z["single"], rng)
+            # directed: the yield point right after every statement of the
+            # first thread that wrote observed shared state (config, shared
+            # schema fields, process-wide state, numpy's global generator):
+            # the thread is parked inside the window its own write opened
+            chg = [i for i, _f in r0.changes[first]]
+            run.count("directed:units_probed_at_every_yield_point")
+            run.count("directed:yield_points_probed", na)
+            run.count(f"shared_state_writes_of_first_thread:{name}", len(chg))
+            for _i, fields in r0.changes[first]:
+                for f_ in fields:
+                    run.count("shared_state_write:" + re.sub(
+                        r"^col\.[^.]+\.[^.]+\.", "col.*.", f_))
+            directed = set(strided(len(chg), z["directed"], rng))
+            directed = {chg[j] for j in directed} - set(pts)
+            pts = sorted(set(pts) | directed)
             pts = [i for k, i in enumerate(pts) if k % nchunk == c]
             if z["single"] is None or na <= z["single"]:
                 run.count("single_preemption_complete_units")
             else:
                 run.count("single_preemption_strided_units")
             for i in pts:
+                if i in directed:
+                    run.count("single:directed_after_shared_state_write")
+                    run.count("single:directed_after_shared_state_write:"
+                              + name)
                 if not go(SinglePreempt(first, i, 2), "single"):
                     return False
         else:
@@ -701,6 +776,19 @@ def finalize(run, ctx):
         "cold:oracle:cached_model_schema_compared": 300 if q else 2300,
         "cold:oracle:registry_compared": 250 if q else 2100,
     })
+    # parsers / subsample families and directed preemption (measured quick,
+    # seed 0: 312 schedules of the fixed shape of variant 0, 1250+ outcomes per family, 30
+    # directed preemptions on the unchanged tree; thorough scaled like the
+    # per-scenario floor)
+    for note in ("parsers:schema_dependent", "subsample:in_vs_fine"):
+        run.floors[note] = 78 if q else 1000
+    for name in ("pd_shared_df_parsers", "pd_subsample"):
+        run.floors[f"oracle:outcome_compared:{name}"] = 300 if q else 6000
+    # how many directed preemptions there are depends on the tree (a tree
+    # that writes no observed shared state has none): the floor is on the
+    # serial runs whose every yield point was probed for such writes
+    # (quick: 17 families x 2 variants x 2 directions = 68 units)
+    run.floors["directed:units_probed_at_every_yield_point"] = 34 if q else 100
     from .. import c07_cold
     for fam in c07_cold.ORDER:
         run.floors[f"cold:schedules:{fam}"] = 30 if q else 250
